@@ -61,6 +61,17 @@ var Catalogue = []ReSpec{
 	{`v(.)(\.[0-9])?`, []string{"v1", "vx.2"}, []string{"v\n", "v", "v\n.1"}},
 	{`\s*x`, []string{"x", " x", "\nx"}, []string{"y", "x "}},
 	{`\Sx`, []string{"ax", "1x"}, []string{" x", "\nx", "x"}},
+	// parentheses and brackets that are not groups: inside classes, quoted with \Q..\E, a class that starts with ]
+	{`(v|r)[(0-9)]+`, []string{"v1", "r(2)", "v)"}, []string{"v1:2", "v?", "vx", "v"}},
+	{`([a-z]+)\Q()\E`, []string{"now()", "a()"}, []string{"now", "now(", "()"}},
+	{`\Q[\E(x|y)`, []string{"[x", "[y"}, []string{"x", "[z", "[xy"}},
+	{`(v)[](]+`, []string{"v(", "v]", "v]("}, []string{"v:", "v", "v["}},
+	// inline flags: they govern the expression they are written in, nothing else of the segment
+	{`(?i)[a-z]+`, []string{"abc", "ABC", "aBc"}, []string{"1", ""}},
+	{`(?i)[a-z]{2}`, []string{"de", "DE"}, []string{"d", "d1"}},
+	{`(?s).x`, []string{"ax", "\nx"}, []string{"x", "axx"}},
+	{`(?m)[a-z]+`, []string{"abc"}, []string{"abc\nxyz", "\nabc", ""}},
+	{`(?U)a+b?`, []string{"a", "aab"}, []string{"b", ""}},
 	// Unicode classes (Perl syntax with Unicode groups, as regexp.Compile accepts)
 	{`\pL+`, []string{"ab", "é", "Ω"}, []string{"1", ""}},
 	{`[\pL\pN_]+`, []string{"a1_", "é9"}, []string{"-", ""}},
@@ -344,7 +355,22 @@ func Mutate(r *rand.Rand, segs []string) []string {
 		return []string{""}
 	}
 	i := r.Intn(len(out))
-	switch r.Intn(11) {
+	switch r.Intn(14) {
+	case 11: // upper-case the segment (literals and values are case-sensitive unless an expression says otherwise)
+		out[i] = strings.ToUpper(out[i])
+	case 12: // flip the case of one letter
+		if len(out[i]) > 0 {
+			j := r.Intn(len(out[i]))
+			b := out[i][j]
+			if b >= 'a' && b <= 'z' {
+				out[i] = out[i][:j] + string(b-32) + out[i][j+1:]
+			} else if b >= 'A' && b <= 'Z' {
+				out[i] = out[i][:j] + string(b+32) + out[i][j+1:]
+			}
+		}
+	case 13: // a line break inside the segment
+		j := r.Intn(len(out[i]) + 1)
+		out[i] = out[i][:j] + "\n" + out[i][j:]
 	case 0: // drop
 		out = append(out[:i], out[i+1:]...)
 		if len(out) == 0 {
